@@ -457,3 +457,54 @@ def gen_cascade(rng):
 
 def exprs_names(exprs):
     return [e.split("[", 1)[0].strip() for e in exprs]
+
+
+# ---------------------------------------------------------------------------------------------
+# the repository's accelerator specifications, numbers scaled down (TLC integers are 32 bit; the compiler treats
+# frequencies, bandwidths, instance counts and literal partition sizes opaquely)
+
+ACCEL = ["sigma", "extensor", "outerspace", "gamma", "demo"]
+
+
+def scale_numbers(y):
+    y = re.sub(r"clock_frequency:\s*\d+", "clock_frequency: 3", y)
+    y = re.sub(r"bandwidth:\s*\d+", "bandwidth: 5", y)
+    y = re.sub(r"\[0\.\.(\d+)\]", lambda m: "[0..%d]" % (int(m.group(1)) % 3 + 1), y)
+    y = re.sub(r"uniform_shape\(128\)", "uniform_shape(2)", y)
+    y = re.sub(r"\.16384\)", ".2)", y)
+    y = re.sub(r"depth:\s*\d+", "depth: 16", y)
+    return y
+
+
+def strip_sections(y, spacetime=True, hardware=True):
+    if hardware:
+        cut = [m.start() for m in re.finditer(r"^(architecture|bindings|format):", y, re.M)]
+        if cut:
+            y = y[:min(cut)]
+    if spacetime:
+        y = re.sub(r"^  spacetime:\n(?:^    .*\n|^\s*\n)*", "", y, flags=re.M)
+    return y
+
+
+def accel(name, ext=3):
+    import execpipe
+    y = scale_numbers(open(os.path.join(REPO, "tests/integration/%s.yaml" % name)).read())
+    d = execpipe.load_yaml(y)
+    ranks = sorted({r for rs in d["einsum"]["declaration"].values() for r in rs})
+    part = ((d.get("mapping") or {}).get("partitioning") or {})
+    syms = set(re.findall(r"[(.]([A-Z][A-Z0-9]*)\)", " ".join(str(v) for v in part.values())))
+    cfg = {r: ext for r in ranks}
+    for s in syms:
+        if s not in cfg and s not in d["einsum"]["declaration"]:
+            cfg[s] = 1 if s.endswith("0") else 2
+    return y, cfg
+
+
+def accel_specs(stripped=True, names=None):
+    out = []
+    for n in names or ACCEL:
+        y, cfg = accel(n, ext=4 if n in ("demo", "extensor") else 3)
+        if stripped:
+            y = strip_sections(y)
+        out.append({"yaml": y, "configs": [cfg], "family": "accel-" + n, "key": n, "cap": 30})
+    return out
